@@ -122,6 +122,13 @@ def hintsOf (h : Raw) (f1 f2 : Q3 → Q3) : List Res := match h.toRes f1 f2 with
   | some r => [r]
   | none => []
 
+/-- round shapes always go through GJK and are curved: accuracy comparisons use the curved-support-map tolerance (×10) -/
+def roundScale (A B : Placed) : Rat :=
+  match A.sh, B.sh with
+  | .round .., _ => 10
+  | _, .round .. => 10
+  | _, _ => 1
+
 /-- world form (`query::closest_points(pos1, g1, pos2, g2, max_dist)`): witnesses are already in world space -/
 def oracleCPWorld (dim3 : Bool) (a o : List String) : String :=
   let parsed := if dim3 then
@@ -138,7 +145,7 @@ def oracleCPWorld (dim3 : Bool) (a o : List String) : String :=
     | some (r, (h, pts)) =>
       match r.toRes id id with
       | none => s!"fail route={A.sh.kind}x{B.sh.kind} non-finite-witness"
-      | some res => judgeCP A B m res (hintsOf h id id) pts (!dim3)
+      | some res => judgeCP A B m res (hintsOf h id id) pts (!dim3) (roundScale A B)
 
 /-- dispatcher form (`DefaultQueryDispatcher.closest_points(pos12, g1, g2, max_dist)`): witnesses in local frames -/
 def oracleCPLocal (dim3 : Bool) (a o : List String) : String :=
@@ -156,7 +163,7 @@ def oracleCPLocal (dim3 : Bool) (a o : List String) : String :=
     | some (r, (h, pts)) =>
       match r.toRes id B.pose.act with
       | none => s!"fail route={A.sh.kind}x{B.sh.kind} non-finite-witness"
-      | some res => judgeCP A B m res (hintsOf h id B.pose.act) (pts.map id) (!dim3)
+      | some res => judgeCP A B m res (hintsOf h id B.pose.act) (pts.map id) (!dim3) (roundScale A B)
 
 def oracleDistWorld (dim3 : Bool) (a o : List String) : String :=
   let parsed := if dim3 then
@@ -176,7 +183,7 @@ def oracleDistWorld (dim3 : Bool) (a o : List String) : String :=
     | none => "fail unparsable-output"
     | some (x, (h, pts)) =>
       if !okF x then s!"fail route={A.sh.kind}x{B.sh.kind} non-finite-distance" else
-      judgeDist A B (q x) (hintsOf h id id) pts (!dim3)
+      judgeDist A B (q x) (hintsOf h id id) pts (!dim3) (roundScale A B)
 
 /-! ### histories: ONE `VoronoiSimplex` reused by a sequence of `*_support_map_support_map_with_params` queries -/
 
